@@ -256,7 +256,7 @@ def r5(c):
     run = P.fn('rodbus::server::task::SessionTask::run')
     ro = one(run.calls('rodbus::server::task::SessionTask::run_one'), 'run_one in run')
     err = q.outcomes(run, ro).get('Err', [])
-    okr = len(err) == 1 and run.in_cycle(ro.node) and ro.node not in run.reach_set(err[0])
+    okr = len(err) == 1 and run.in_cycle(ro.node) and ro.node not in run.reach_set(err[0]) and bool(run.reach_set(err[0]) & {('b', i_) for i_ in run.return_blocks()})
     c.ob('server/run', okr, 'SessionTask::run leaves its loop on the first Err of run_one', '', ro.loc())
     r1_ = P.fn('rodbus::server::task::SessionTask::run_one')
     nf = one(r1_.calls(NEXT_FRAME), 'next_frame in run_one')
